@@ -304,7 +304,16 @@ where
         while self.state != State::Finished {
             if self.state == State::Incomplete {
                 // resume incomplete search after previous read_record_set(), or
-                if !try_opt!(self.resume_incomplete_search(is_new)) {
+                let found = match self.resume_incomplete_search(is_new) {
+                    Ok(found) => found,
+                    Err(e) => {
+                        // the positions collected so far refer to the buffer of
+                        // the reader, which has not been copied to the record set
+                        rset.npos = 0;
+                        return Some(Err(e));
+                    }
+                };
+                if !found {
                     return None;
                 }
                 // reset state to Positioned
